@@ -73,6 +73,9 @@ def run(check, prog):
     # forward(), the optics and the noise level all read their values through
     # read_map: a placeholder must resolve to its own parameter, also beyond nine
     c11.grammar(check, prog)
+    # lnprior sums the log-density of every parameter once: a prior shared
+    # between the scatterer and another section must be one parameter
+    c11.sections_share_identity(check, prog)
     # ... and `an invalid scatterer gives -inf` rests on the constructors refusing
     # exactly the invalid ones (rule shared with C20)
     c20.constructors(check, prog)
